@@ -562,6 +562,16 @@ Proof.
   split; [vm_compute; reflexivity|]. split; [|left; reflexivity].
   intros H. apply Forall_cons_iff in H as [H _]. exact H.
 Qed.
+(* the code as found before the second repair: in a 0-dimensional space the satisfied row 0 <= 1 got -inf *)
+Lemma distance_v1_refuted :
+  exists P norms x ds, wf_aff P /\ length x = a_in P /\ in_poly P x /\
+    p_distance_v1 P norms x = Some ds /\ ~ Forall ed_nonneg ds /\ In DNInf ds.
+Proof.
+  exists (mk 0 [[]] [1]), [1], [], [DNInf]. split; [apply wf_affb_spec; vm_compute; reflexivity|].
+  split; [reflexivity|]. split; [apply in_polyb_spec; vm_compute; reflexivity|].
+  split; [vm_compute; reflexivity|]. split; [|left; reflexivity].
+  intros H. apply Forall_cons_iff in H as [H _]. exact H.
+Qed.
 
 Lemma tol8_nonneg : 0 <= tol8.
 Proof. apply qleb_spec. vm_compute. reflexivity. Qed.
